@@ -958,6 +958,9 @@ func (x *Exec) ptrAdd(p Ptr, d *smt.Term, stride int) Ptr {
 	if d.IsConst() {
 		return x.ptrAddConst(p, int(d.SVal()))
 	}
+	if stride <= 1 {
+		stride = termStride(d)
+	}
 	np := Ptr{Obj: p.Obj, Off: x.st.Add(p.Off, d), Base: p.Base, Stride: gcd(p.Stride, stride)}
 	if np.Stride == 0 {
 		np.Stride = 1
